@@ -154,6 +154,16 @@ Named == <<
   <<Id("permit"), Op("("), Id("principal"), Op(","), Id("action"), Op(","), Id("resource"), Op(")"), Id("when"), Op("{"), Id("true"), Op("}")>>,
   <<Id("permit"), Op("("), Id("principal"), Op(","), Id("action"), Op(","), Id("resource"), Op(")"), Id("if"), Op("{"), Id("true"), Op("}"), Op(";")>>
 >>
+\* prefix chains: every sequence of 1 .. 4 operators ! and - before every kind of operand (an integer literal -- to
+\* which a directly preceding '-' belongs --, the two literals at the 64-bit boundary, a literal followed by an access,
+\* a parenthesised literal, a variable); the specification's parse decides what each denotes or that it is rejected
+ChainOps == <<Op("!"), Op("-")>>
+ChainsOf(n) == IF n = 0 THEN << <<>> >> ELSE LET RECURSIVE C(_) C(k) == IF k = 0 THEN << <<>> >> ELSE Flat([i \in DOMAIN C(k - 1) |-> [o \in 1..2 |-> <<ChainOps[o]>> \o C(k - 1)[i]]]) IN C(n)
+ChainOperands == << <<IntT(<<5>>)>>, <<IntT(<<0>>)>>, <<IntT(<<9, 2, 2, 3, 3, 7, 2, 0, 3, 6, 8, 5, 4, 7, 7, 5, 8, 0, 8>>)>>,
+                    <<IntT(<<9, 2, 2, 3, 3, 7, 2, 0, 3, 6, 8, 5, 4, 7, 7, 5, 8, 0, 7>>)>>, <<Id("principal")>>, <<Op("("), IntT(<<5>>), Op(")")>>,
+                    <<IntT(<<5>>), Op("."), Id("foo")>>, <<Op("("), Op("-"), IntT(<<5>>), Op(")")>>, <<Id("true")>> >>
+UnaryChains == Flat([n \in 1..4 |-> Flat([c \in DOMAIN ChainsOf(n) |-> [o \in DOMAIN ChainOperands |->
+                 PolToks(ChainsOf(n)[c] \o ChainOperands[o] \o <<Op("=="), IntT(<<5>>)>>)]])])
 \* accepted spellings with the value they denote
 Spellings == <<
   [raw |-> <<92, 117, 123, 52, 49, 125>>, val |-> <<65>>], [raw |-> <<92, 117, 123, 48, 48, 48, 48, 52, 49, 125>>, val |-> <<65>>],
@@ -231,7 +241,7 @@ VARIABLES idx, out
 vars == <<idx, out>>
 
 NCases == IF Mode = "ast" THEN Len(Policies) + Len(Spellings)
-          ELSE IF Mode = "marshal" THEN Len(MarshalPolicies) + NSetCases ELSE Len(MutSeeds) + 1
+          ELSE IF Mode = "marshal" THEN Len(MarshalPolicies) + NSetCases ELSE Len(MutSeeds) + 2
 Init == idx \in 1..NCases /\ out = <<>>
 
 Exp(ts) == LET r == ParsePolicyList(ts) IN IF r.ok THEN [ok |-> TRUE, policies |-> r.v] ELSE [ok |-> FALSE]
@@ -254,7 +264,9 @@ CaseOf(i) ==
   ELSE IF i <= Len(MutSeeds)
        THEN LET ms == Mutants(RenderPolicy(MutSeeds[i], FALSE)) IN
             [m \in DOMAIN ms |-> [op |-> "parse", name |-> <<"mutant", i, m>>, tokens |-> ms[m], exp |-> Exp(ms[m])]]
-       ELSE [n \in DOMAIN Named |-> [op |-> "parse", name |-> <<"named", n>>, tokens |-> Named[n], exp |-> Exp(Named[n])]]
+       ELSE IF i = Len(MutSeeds) + 1
+       THEN [n \in DOMAIN Named |-> [op |-> "parse", name |-> <<"named", n>>, tokens |-> Named[n], exp |-> Exp(Named[n])]]
+       ELSE [n \in DOMAIN UnaryChains |-> [op |-> "parse", name |-> <<"chain", n>>, tokens |-> UnaryChains[n], exp |-> Exp(UnaryChains[n])]]
 
 Compute == out = <<>> /\ out' = CaseOf(idx) /\ UNCHANGED idx
 Next == Compute
